@@ -45,6 +45,32 @@ func execOp(rc *RealCase, fsys backupfs.FS, op Op) []string {
 	case "write":
 		f, err := fsys.OpenFile(a[0], atoi(a[1]), goMode(atou(a[2])))
 		return writeTo(f, err, a[3])
+	case "creatread":
+		// Create, write, seek back and read the content through the SAME handle, close
+		f, err := fsys.Create(a[0])
+		if err != nil {
+			return []string{"err", errClass(err)}
+		}
+		name := f.Name()
+		if a[1] != "" {
+			if _, werr := f.WriteString(a[1]); werr != nil {
+				f.Close()
+				return []string{"err-write", errClass(werr)}
+			}
+		}
+		if _, serr := f.Seek(0, io.SeekStart); serr != nil {
+			f.Close()
+			return []string{"err-read", errClass(serr)}
+		}
+		b, rerr := io.ReadAll(f)
+		if rerr != nil {
+			f.Close()
+			return []string{"err-read", errClass(rerr)}
+		}
+		if cerr := f.Close(); cerr != nil {
+			return []string{"err-close", errClass(cerr)}
+		}
+		return []string{"ok", name, string(b)}
 	case "read":
 		f, err := fsys.Open(a[0])
 		if err != nil {
@@ -119,6 +145,8 @@ func modelOpFields(op Op) (cmd string, fields []string) {
 	switch op.K {
 	case "creat":
 		return "creat", []string{a[0], a[1]}
+	case "creatread":
+		return "creatread", []string{a[0], a[1]}
 	case "write":
 		return "write", []string{a[0], a[1], a[2], a[3]}
 	case "read":
